@@ -14,7 +14,7 @@
 (*   "TiltCarriesOver" a tilt while ball_ending is held is not cleared when that ball has ended: the    *)
 (*                     next ball is started, devices are enabled, with game.tilted still set.           *)
 EXTENDS Integers, Sequences, FiniteSets, TLC
-CONSTANTS Dev,          \* device table: id -> [id, kind, dual, eos, rep, tmo, delay, btn, eosw, main, hold]
+CONSTANTS Dev,          \* device table: id -> [id, kind, dual, eos, rep, tmo, delay, btn, eosw, main, hold, auto, swap]
           Configs,      \* records [active: devices that receive explicit requests, holdS, holdE: queue events held]
           BPG,          \* balls per game
           ReEnable, SearchHold, EosLong, MaxHits,
@@ -32,7 +32,8 @@ FCoilsOf(f) == {Dev[f].main} \cup (IF Dev[f].dual THEN {Dev[f].hold} ELSE {})
 FCoils == UNION {FCoilsOf(f) : f \in Flippers}
 HeldCoil(f) == IF Dev[f].dual THEN Dev[f].hold ELSE Dev[f].main     \* the coil sw_flip leaves energised
 EosSw == {Dev[f].eosw : f \in {x \in Flippers : Dev[x].eos}}
-DefaultEn == FlipAuto            \* enable_events default: ball_started (kickbacks have none)
+DefaultEn == {d \in FlipAuto : Dev[d].auto}    \* enable_events default: ball_started (kickbacks have none; nor has the
+                                                \* second of two flippers that share button and coil, e.g. normal/novice)
 \* ---- the A..I table of flipper.py, and autofire.py ------------------------------------------------------------
 KPER == "pulse_on_hit_and_enable_and_release"
 Rules(d) == LET v == Dev[d] IN
@@ -106,10 +107,15 @@ S0 == [s EXCEPT !.calls = {}]
 \* ---- explicit requests (control events or direct calls), at any time ------------------------------------------
 Req == nops < MaxOps /\ nops' = nops + 1
 Same == UNCHANGED <<cfg, phase, ball, tflag, pendEnd, collect, snap, last, btn, eos, eosAt, now, games>>
-Enable(d) == /\ d \in cfg.active /\ Req /\ Same
+\* (flippers that share button and coil are only ever switched by their swap event: enabling both is a config error)
+Enable(d) == /\ d \in cfg.active /\ Dev[d].swap = "" /\ Req /\ Same
              /\ s' = [DoEnable(S0, {d}, now) EXCEPT !.man[d] = IF InPlay THEN @ ELSE TRUE]
              /\ act' = [op |-> "enable", d |-> d]
 Disable(d) == /\ d \in cfg.active /\ Req /\ Same /\ s' = DoDisable(S0, {d}) /\ act' = [op |-> "disable", d |-> d]
+\* one event that is a disable event of a and an enable event of b (a, b share button and coil): disable runs first
+Swap(a, b) == /\ a \in cfg.active /\ b \in cfg.active /\ Dev[a].swap = b /\ InPlay /\ s.en[a] /\ Req /\ Same
+              /\ s' = DoEnable(DoDisable(S0, {a}), {b}, now)
+              /\ act' = [op |-> "swap", a |-> a, b |-> b]
 SwFlip(f) == /\ f \in cfg.active \cap Flippers /\ Req /\ Same /\ s' = FlipEff(S0, f) /\ act' = [op |-> "flip", d |-> f]
 SwRelease(f) == /\ f \in cfg.active \cap Flippers /\ Req /\ Same /\ s' = ReleaseSet(S0, {f}) /\ act' = [op |-> "release", d |-> f]
 \* the ball search callback of a device: a flipper flips and releases after its hold time (the timer restarts),
@@ -214,6 +220,7 @@ ServiceExit == /\ phase = "service" /\ LSame /\ UNCHANGED <<games, ball, tflag, 
 
 Next == \/ \E d \in Devices : Enable(d) \/ Disable(d) \/ BallSearch(d) \/ SwFlip(d) \/ SwRelease(d)
                               \/ BtnPress(d) \/ BtnRelease(d) \/ EosClose(d) \/ EosOpen(d) \/ \E n \in 1..2 : Hit(d, n)
+        \/ \E a \in {d \in Devices : Dev[d].swap # ""} : Swap(a, Dev[a].swap)
         \/ Adv \/ StartGame \/ ReleaseStart \/ Drain \/ EndGame \/ ReleaseEnd \/ Tilt \/ TiltDrain
         \/ ServiceEnter \/ ServiceExit
 Spec == Init /\ [][Next]_vars
@@ -228,7 +235,7 @@ HandlersExact == s.mgr = {r \in Reps : s.en[r]}
 \* ball ended / tilted / service / no game: nothing is enabled except by an explicit request made since
 SafeWhenNotInPlay == ~InPlay => \A d \in FlipAuto : s.en[d] => s.man[d]
 \* no flipper coil is left energised once its flipper is disabled
-NoCoilLeftOn == \A f \in Flippers : ~s.en[f] => \A c \in FCoilsOf(f) : ~s.on[c]
+NoCoilLeftOn == \A f \in Flippers : ~s.en[f] => \A c \in FCoilsOf(f) : s.on[c] => \E g \in Flippers : s.en[g] /\ c \in FCoilsOf(g)
 \* a pending timeout re-enable exists only where re-enabling would be legitimate
 NoStrayReenable == \A a \in Autos : s.reAt[a] # 0 => (InPlay \/ s.man[a])
 TypeOK == /\ phase \in {"noGame", "ballStarting", "ballLive", "ballEnding", "tilted", "service"}
